@@ -1,1 +1,3 @@
 //! shared machinery (DESIGN.md sec. 3)
+pub mod refalg;
+pub mod sc;
